@@ -428,6 +428,18 @@ def install():
             return wrapper
         setattr(np.random, fname, make(real, fname))
 
+    # ---- a generator constructed without a seed is a source of randomness np.random.seed does not govern
+    if hasattr(np.random, "default_rng"):
+        real_rng = np.random.default_rng
+
+        def default_rng(seed=None, *a, **k):
+            s = active()
+            if s is not None and not s.abort and seed is None:
+                s.races.append("np.random.default_rng() constructed without a seed: its draws are not governed by the "
+                               "NumPy global seed")
+            return real_rng(seed, *a, **k)
+        np.random.default_rng = default_rng
+
     # ---- shared objects: attribute stores and mutators
     def creator_of(s, obj):
         return s.creators.get(id(obj), "main")
@@ -543,6 +555,16 @@ def install_free_monitor():
                 return real(*a, **k)
             return wrapper
         setattr(np.random, fname, make(real, fname))
+
+    if hasattr(np.random, "default_rng"):
+        real_rng = np.random.default_rng
+
+        def default_rng(seed=None, *a, **k):
+            if seed is None:
+                events.append("np.random.default_rng() constructed without a seed: its draws are not governed by the "
+                              "NumPy global seed")
+            return real_rng(seed, *a, **k)
+        np.random.default_rng = default_rng
 
     def watch(cls, mutators=()):
         orig_init, orig_setattr = cls.__init__, cls.__setattr__
